@@ -24,6 +24,8 @@ func ExecuteAny(spec *RunSpec, opts RunOpts) *RunResult {
 		return ExecuteCorrupt(spec, opts)
 	case "S-SHARE":
 		return ExecuteShare(spec, opts)
+	case "S-GROW":
+		return ExecuteGrow(spec, opts)
 	}
 	return Execute(spec, opts)
 }
